@@ -16,8 +16,10 @@ def esc(s):
 def s12():
     kf = json.load(open(os.path.join(HERE, "known_findings.json")))["findings"]
     log = subprocess.check_output("git -C /repo log --reverse --format='%h %s' 0bc0a46..HEAD", shell=True, text=True).strip()
-    rows = ["| %s | `%s` | %s | `%s` |" % (f["property"], f["commit"], esc(f["what"]), esc(f["input"])[:160]) for f in kf]
-    return open(os.path.join(HERE, "docs_src", "s12_head.md")).read().replace("ROWS", "\n".join(rows)).replace("GITLOG", log)
+    rows = ["| %s | `%s` | %s | `%s` |" % (f["property"], f["commit"], esc(f["what"]), esc(f["input"])[:160]) for f in kf if f.get("status") == "fixed"]
+    known = ["| %s | %s | `%s` | %s | %s |" % (f["property"], esc(f["what"]), esc(f["input"])[:400], ", ".join("`%s`" % x for x in f["keys"][:3]) + (" … (%d keys)" % len(f["keys"]) if len(f["keys"]) > 3 else ""), esc(f.get("why_not_repaired", "")))
+             for f in kf if f.get("status") == "known"]
+    return open(os.path.join(HERE, "docs_src", "s12_head.md")).read().replace("KNOWNROWS", "\n".join(known)).replace("ROWS", "\n".join(rows)).replace("GITLOG", log)
 
 
 def s13():
